@@ -161,21 +161,25 @@ def confirm_embedded_conflict(a, b, same_name, depth2):
 
 
 # ------------------------------------------------------------------ hooks set per INSTANCE (as ContextProcessor does)
-class InstanceHooks(Middleware):
-    """one class, hook functions chosen per instance"""
-    def __init__(self, phase, bad):
-        if bad == 0:
-            fn = lambda next: next()
-        elif bad == 1:
-            fn = lambda request, next: next()          # `next` is not the first parameter
-        else:
-            fn = lambda request: Response('no next at all')
-        setattr(self, ('request', 'endpoint', 'render')[phase], fn)
+def _mk_instance_hooks():
+    class InstanceHooks(Middleware):
+        """one class, hook functions chosen per instance"""
+        def __init__(self, phase, bad):
+            if bad == 0:
+                fn = lambda next: next()
+            elif bad == 1:
+                fn = lambda request, next: next()          # `next` is not the first parameter
+            else:
+                fn = lambda request: Response('no next at all')
+            setattr(self, ('request', 'endpoint', 'render')[phase], fn)
+    return InstanceHooks
 
 
 def _instance_hooks(ngood, phase, bad, level):
     """after `ngood` well-formed instances of the class have been accepted (other applications), an instance whose hook
-    does not take `next` first is still rejected with TypeError - at application, embedded-application or route level"""
+    does not take `next` first is still rejected with TypeError - at application, embedded-application or route level.
+    The class is fresh per case, so a case never depends on what earlier cases left behind in the process."""
+    InstanceHooks = _mk_instance_hooks()
     for i in range(ngood):
         Application([('/g%d' % i, lambda: Response('g'))], middlewares=[InstanceHooks(i % 3, 0)])
     mw = InstanceHooks(phase, bad)
